@@ -178,6 +178,19 @@ def run(chk: Check) -> None:
             if f.cls is c:
                 _optional(chk, f)
     chk.floor("R18.3", "zip sites over child collections", n_zip, 6)
+    adc = repo.cls("AuxDataContainer").methods.get("deep_eq")
+    if adc is not None:
+        chk.saw(adc)
+        uses = [n for n in walk_no_nested(adc.node) if isinstance(n, ast.Attribute) and n.attr == "aux_data"]
+        ok = bool(uses) and all(isinstance(getattr(u, "_parent", None), ast.Attribute)
+                                and getattr(u, "_parent").attr == "keys" for u in uses)
+        cmps = [n for n in walk_no_nested(adc.node) if isinstance(n, ast.Compare) and "aux_data" in unparse(n)]
+        ok = ok and len(cmps) == 1 and unparse(cmps[0].left).replace("self", "$") == \
+            unparse(cmps[0].comparators[0]).replace(adc.param_names()[1], "$")
+        chk.ob("R18.1", "AuxDataContainer.deep_eq:keys-only", ok, adc.loc(),
+               "AuxData tables are compared by their key sets only (documented: values are not "
+               "compared, and neither are type names): aux_data must be used only as "
+               "self.aux_data.keys() vs other.aux_data.keys()", 2)
     # Edge endpoints by deep_eq, labels by != in CFG.deep_eq
     f = repo.cls("CFG").methods.get("deep_eq")
     if f is not None:
